@@ -65,6 +65,9 @@ type kvElection struct {
 	// and validation loops).
 	// Set by becomeLeader, called when the term ends; guarded by mu.
 	termCancel context.CancelFunc
+	// termCtx is the context termCancel cancels: it identifies the current term
+	// (see demoteTerm). Set and cleared together with termCancel; guarded by mu.
+	termCtx context.Context
 
 	onPromote func(ctx context.Context, token string)
 	onDemote  func()
@@ -414,6 +417,7 @@ func (e *kvElection) becomeLeader(token string, rev uint64) bool {
 	ctx := e.ctx
 	termCtx, termCancel := context.WithCancel(ctx)
 	e.termCancel = termCancel
+	e.termCtx = termCtx
 
 	fromState := StateInit
 	if s := e.state.Load(); s != nil {
@@ -594,21 +598,28 @@ func (e *kvElection) observeLeader(id string, rev uint64) {
 // becomeFollower gives up the leadership claim, if any, and continues as a
 // follower. It reports whether the instance was leader as seen under the same
 // lock hold that cleared the claim, so that exactly one caller per lost term
-// notifies the application (see demote).
-func (e *kvElection) becomeFollower() bool {
-	return e.enterFollowerState(true)
+// notifies the application (see demote). With a non-nil term it does so only if
+// term is still the current term (see demoteTerm).
+func (e *kvElection) becomeFollower(term context.Context) bool {
+	return e.enterFollowerState(true, term)
 }
 
 // stayFollower records that an acquisition attempt failed. Unlike becomeFollower
 // it never clears a leadership claim: a leftover or concurrent acquisition round
 // of this instance loses against the instance's own record and must not demote it.
 func (e *kvElection) stayFollower() {
-	e.enterFollowerState(false)
+	e.enterFollowerState(false, nil)
 }
 
-func (e *kvElection) enterFollowerState(demote bool) bool {
+// enterFollowerState switches to FOLLOWER. With a non-nil term it does so only if
+// term is the context of the current term (see demoteTerm).
+func (e *kvElection) enterFollowerState(demote bool, term context.Context) bool {
 	e.mu.Lock()
 	defer e.mu.Unlock()
+
+	if term != nil && e.termCtx != term {
+		return false
+	}
 
 	wasLeader := e.isLeader.Load()
 	if wasLeader && !demote {
@@ -636,6 +647,7 @@ func (e *kvElection) enterFollowerState(demote bool) bool {
 	if e.termCancel != nil {
 		e.termCancel()
 		e.termCancel = nil
+		e.termCtx = nil
 	}
 
 	if wasLeader {
@@ -671,7 +683,18 @@ func (e *kvElection) enterFollowerState(demote bool) bool {
 // is the one that ended the term. Every demotion cause goes through here, so the
 // callback runs exactly once per lost term however many causes fire at once.
 func (e *kvElection) demote(reason string) {
-	if !e.becomeFollower() {
+	e.demoteTerm(nil, reason)
+}
+
+// demoteTerm is demote for the loops that belong to one term (term is the context
+// they were started with): it does nothing unless that term is still the current
+// one. A loop can notice the end of its term late - it was inside a health check
+// or waiting for a store operation - when the instance has already been
+// re-elected; whatever it concludes then is about its own term and must neither
+// demote the new one nor invoke OnDemote a second time. A nil term means
+// "whatever term is current".
+func (e *kvElection) demoteTerm(term context.Context, reason string) {
+	if !e.becomeFollower(term) {
 		return
 	}
 
@@ -1301,7 +1324,7 @@ func (e *kvElection) ValidateTokenOrDemote(ctx context.Context) bool {
 	isValid, err := e.ValidateToken(ctx)
 	if err != nil || !isValid {
 		if e.IsLeader() {
-			e.handleValidationFailure(err)
+			e.handleValidationFailure(nil, err)
 		}
 		return false
 	}
